@@ -90,11 +90,13 @@ func H_C07_sequence() {
 	reqs0 := len(w.CCTP.reqs) + len(w.Hyp.reqs) + len(w.Int.reqs)
 	d := transfertypes.FungibleTokenPacketData{Denom: voucherOnSender, Amount: "1000", Sender: "sender"}
 	d.Receiver = []string{user2.String(), "", "noble1nope"}[verif.Choose("receiver", 3)]
-	switch verif.Choose("memo", 3) {
+	switch verif.Choose("memo", 4) {
 	case 1:
 		d.Memo = "gm"
 	case 2:
 		d.Memo = internalPayloadMemo(user1.String())
+	case 3:
+		d.Memo = strings.Repeat("m", 70000) // larger than any size a well-meaning guard might assume (ICS-20 has no receive-side limit)
 	}
 	if verif.Bool("no-sender") {
 		d.Sender = ""
